@@ -1,7 +1,7 @@
 SPECIFICATION MCSpec
 CONSTANTS
   MaxPrev = 3
-  MaxDecodes = 2
+  MaxDecodes = 3
   Canonical = TRUE
 INVARIANTS
   RoundTrip
